@@ -4,10 +4,12 @@ import (
 	"encoding/json"
 	"fmt"
 	"strings"
+	"syscall"
 	"time"
 
 	log "github.com/go-spring/log"
 	"github.com/go-spring/log/verifsim"
+	"github.com/go-spring/log/verifsim/simos"
 	"pgregory.net/rapid"
 )
 
@@ -208,6 +210,12 @@ func (c c05) Run(x *Exec, scn any) {
 		// at least two more rotations of every file appender before Stop: a descriptor that is
 		// only released "one rotation later" must really be released then
 		for round := 0; round < 3; round++ {
+			if round == 1 && s.Knobs.MapSeed%2 == 1 {
+				// one file creation fails at this boundary (descriptor table full): the logger
+				// must keep its current file, and Stop must still close everything it ever opened
+				x.FS.AddFault(&simos.FaultRule{Op: "open", Prefix: "/logs", Err: syscall.EMFILE, Count: 1})
+				x.Sim.Probe("rotation_failure_before_stop")
+			}
 			x.Sim.Advance(2100 * time.Millisecond)
 			x.Sim.Spawn(fmt.Sprintf("producer-late%d", round), func() {
 				subs[0] = append(subs[0], submit(0, 1000+2*round, AOp{Lvl: "INFO", Size: 3}))
